@@ -12,6 +12,7 @@ import OdlModel.Lemmas.Functionals
 import OdlModel.Lemmas.WeightedSpace
 import OdlModel.Model.Prox
 import OdlModel.Model.FunctionalsProx
+import OdlModel.Model.FunctionalsSep
 import Mathlib.Analysis.InnerProductSpace.Basic
 import Mathlib.Algebra.Order.Field.Basic
 import Mathlib.Algebra.Order.Group.MinMax
@@ -2734,3 +2735,176 @@ example : ∃ p1 p2, moreauPair realEnv 1 [1, 1]
   · simp [OdlModel.Prox.Fn.prox, OdlModel.Prox.proxQuadPerturb, OdlModel.Prox.proxArgScaling,
       C08.vec_smul_data, C08.vec_sub_data, C08.idxMap_length]
 end moreau_extra_examples
+
+/-! ### ROUND 5 — SeparableSum: conjugate of a separable sum, Fenchel–Young through it
+
+`sepConj` (Model/FunctionalsSep.lean) is `SeparableSum.convex_conj` over C09's `SepPart`s; the
+driver op `sepfy` prints `sepValue ps`, `sepValue (sepConj ps)` and `sepInner` and the stream
+`sepfy` of tools/harness/c08.py compares them (and the class skeletons of the conjugate parts)
+with live `SeparableSum` objects on the product spaces. -/
+open OdlModel.FunctionalsLeaves
+
+section sep
+variable {K : Type} [Field K] [LinearOrder K] [IsStrictOrderedRing K]
+
+/-- Fenchel–Young for ONE summand with its coded conjugate, where both are finite. -/
+def OdlModel.C08.PartFY (p : SepPart K) : Prop :=
+  p.x.length = p.d.length ∧
+  ∀ g, p.f.conj (listOps p.w) = some g → p.f.dom (listOps p.w) p.x = true →
+    g.dom (listOps p.w) p.d = true →
+    innerW p.w p.x p.d ≤ p.f.value (listOps p.w) p.x + g.value (listOps p.w) p.d
+
+open OdlModel.C08 in
+/-- **Fenchel–Young through `SeparableSum.convex_conj`, executed definitions** (any number of
+summands, any part spaces): if every summand satisfies Fenchel–Young with its coded conjugate,
+then so does the separable sum with the coded `SeparableSum.convex_conj` (`sepConj`: the separable
+sum of the summands' conjugates) in the product space's inner product (`sepInner`: the sum of the
+parts' weighted inner products of the flat arguments) — exactly the three numbers the driver
+prints for `sepfy` and the stream `sepfy` compares with the live objects. -/
+theorem C08.sep_conj_sound (ps qs : List (SepPart K)) (h : sepConj ps = some qs)
+    (hp : ∀ p ∈ ps, PartFY p) (hd : sepDom ps = true) (hdc : sepDom qs = true) :
+    sepInner ps (sepArg ps) (sepDir ps) ≤ sepValue ps + sepValue qs := by
+  induction ps generalizing qs with
+  | nil =>
+    simp only [sepConj, Option.some.injEq] at h
+    subst h
+    simp [sepInner, sepValue]
+  | cons p r ih =>
+    simp only [sepConj] at h
+    cases hg : p.f.conj (listOps p.w) with
+    | none => simp [hg] at h
+    | some g =>
+      cases hr : sepConj r with
+      | none => simp [hg, hr] at h
+      | some r' =>
+        simp only [hg, hr, Option.some.injEq] at h
+        subst h
+        simp only [sepDom, Bool.and_eq_true] at hd hdc
+        obtain ⟨hlen, hfy⟩ := hp p (by simp)
+        have h1 := hfy g hg hd.1 hdc.1
+        have h2 := ih r' hr (fun q hq => hp q (by simp [hq])) hd.2 hdc.2
+        simp only [sepInner, sepArg, sepDir, sepValue, List.take_left', hlen, List.drop_left']
+        linarith
+
+/-- Helper: `⟨y, y⟩_w ≥ 0` on weighted lists (weights ≥ 0). -/
+theorem C08.innerW_self_nonneg (w y : List K) (hw : ∀ a ∈ w, 0 ≤ a) : 0 ≤ innerW w y y := by
+  induction w generalizing y with
+  | nil => simp [innerW]
+  | cons a ws ih =>
+    cases y with
+    | nil => simp [innerW]
+    | cons b ys =>
+      have ha : 0 ≤ a := hw a (by simp)
+      have := ih ys (fun c hc => hw c (by simp [hc]))
+      simp only [innerW]
+      nlinarith [mul_nonneg ha (mul_self_nonneg b)]
+
+/-- Helper: `⟨x, y⟩_w ≤ ⟨x, x⟩_w + ¼⟨y, y⟩_w` on weighted lists (all lengths, weights ≥ 0). -/
+theorem C08.innerW_l2sq (w x y : List K) (hw : ∀ a ∈ w, 0 ≤ a) :
+    innerW w x y ≤ innerW w x x + 1 / ((1 + 1) * (1 + 1)) * innerW w y y := by
+  have hq : (0 : K) ≤ 1 / ((1 + 1) * (1 + 1)) := by positivity
+  induction w generalizing x y with
+  | nil => simp [innerW]
+  | cons a ws ih =>
+    cases x with
+    | nil =>
+      have := C08.innerW_self_nonneg (a :: ws) y hw
+      simp only [innerW, zero_add]
+      exact mul_nonneg hq this
+    | cons b xs =>
+      cases y with
+      | nil =>
+        have := C08.innerW_self_nonneg (a :: ws) (b :: xs) hw
+        simp only [innerW, mul_zero, add_zero] at this ⊢
+        exact this
+      | cons c ys =>
+        have ha : 0 ≤ a := hw a (by simp)
+        have := ih xs ys (fun c hc => hw c (by simp [hc]))
+        simp only [innerW]
+        nlinarith [mul_nonneg ha (sq_nonneg (b - c / 2))]
+
+open OdlModel.C08 in
+/-- Summands for which Fenchel–Young with the coded conjugate is a theorem on every weighted list
+space: `L1Norm`, `Huber(γ > 0)`, `L2NormSquared` (weights ≥ 0, equal lengths of the two arguments). -/
+def OdlModel.C08.SepLeaf (p : SepPart K) : Prop :=
+  (∀ a ∈ p.w, 0 ≤ a) ∧ p.x.length = p.d.length ∧
+    (p.f = .coord .l1 ∨ (∃ γ, 0 < γ ∧ p.f = .coord (.huber γ)) ∨ p.f = .l2sq)
+
+open OdlModel.C08 in
+/-- The built-in summands satisfy `PartFY` (from `l1_linf_conj`, `huber_conj`, `innerW_l2sq`) and
+their coded conjugate exists. -/
+theorem C08.partFY_of_leaf (p : SepPart K) (h : SepLeaf p) :
+    PartFY p ∧ ∃ g, p.f.conj (listOps p.w) = some g := by
+  obtain ⟨hw, hl, hf⟩ := h
+  obtain ⟨w, f, x, d⟩ := p
+  simp only at hw hl hf
+  rcases hf with rfl | ⟨γ, hγ, rfl⟩ | rfl
+  · refine ⟨⟨hl, ?_⟩, _, rfl⟩
+    intro g hg _ hdg
+    simp only [Fn.conj, Option.some.injEq] at hg
+    subst hg
+    have := C08.l1_linf_conj w x d hw (by simpa [Fn.dom, listOps] using hdg)
+    simpa [Fn.value, listOps] using this
+  · obtain ⟨t', ht', hfy⟩ := C08.huber_conj γ hγ w x d hw
+    refine ⟨⟨hl, ?_⟩, t', ht'⟩
+    intro g hg _ hdg
+    rw [ht'] at hg
+    simp only [Option.some.injEq] at hg
+    subst hg
+    simpa [listOps] using hfy hdg
+  · refine ⟨⟨hl, ?_⟩, _, rfl⟩
+    intro g hg _ _
+    simp only [Fn.conj, Option.some.injEq] at hg
+    subst hg
+    have := C08.innerW_l2sq w x d hw
+    simpa [Fn.value, listOps, two] using this
+
+open OdlModel.C08 in
+/-- **Fenchel–Young through `SeparableSum.convex_conj` for sums of built-ins, unconditional**
+(any number of summands, any lengths, any non-negative weights per part): for separable sums of
+`L1Norm`, `Huber(γ>0)` and `L2NormSquared` the coded conjugate exists, and wherever it is finite,
+`<x, y> ≤ f(x) + f*(y)` for the executed `sepValue` / `sepConj` / `sepInner`. -/
+theorem C08.sep_conj_sound_leaves (ps : List (SepPart K)) (hp : ∀ p ∈ ps, SepLeaf p) :
+    ∃ qs, sepConj ps = some qs ∧
+      (sepDom qs = true → sepInner ps (sepArg ps) (sepDir ps) ≤ sepValue ps + sepValue qs) := by
+  have hex : ∃ qs, sepConj ps = some qs := by
+    induction ps with
+    | nil => exact ⟨[], rfl⟩
+    | cons p r ih =>
+      obtain ⟨r', hr⟩ := ih (fun q hq => hp q (by simp [hq]))
+      obtain ⟨-, g, hg⟩ := C08.partFY_of_leaf p (hp p (by simp))
+      exact ⟨⟨p.w, g, p.d, p.x⟩ :: r', by simp only [sepConj, hg, hr]⟩
+  obtain ⟨qs, hqs⟩ := hex
+  refine ⟨qs, hqs, fun hdc => ?_⟩
+  have hd : sepDom ps = true := by
+    clear hqs hdc
+    induction ps with
+    | nil => rfl
+    | cons p r ih =>
+      simp only [sepDom, Bool.and_eq_true]
+      refine ⟨?_, ih (fun q hq => hp q (by simp [hq]))⟩
+      obtain ⟨-, -, hf⟩ := hp p (by simp)
+      rcases hf with h | ⟨γ, -, h⟩ | h <;> rw [h] <;> rfl
+  exact C08.sep_conj_sound ps qs hqs (fun p hpm => (C08.partFY_of_leaf p (hp p hpm)).1) hd hdc
+end sep
+
+section sep_examples
+/-- Non-vacuity: `‖·‖₁ ⊕ Huber_{1/2} ⊕ ‖·‖²` on `R² × R^1(weight 1/2) × R²`. -/
+example : ∃ qs, sepConj (K := ℝ)
+      [⟨[1, 1], .coord .l1, [1, -2], [1 / 2, 1 / 4]⟩, ⟨[1 / 2], .coord (.huber (1 / 2)), [3], [1]⟩,
+       ⟨[1, 2], .l2sq, [1, 1], [4, -2]⟩] = some qs ∧
+      (sepDom qs = true → sepInner (K := ℝ)
+        [⟨[1, 1], .coord .l1, [1, -2], [1 / 2, 1 / 4]⟩, ⟨[1 / 2], .coord (.huber (1 / 2)), [3], [1]⟩,
+         ⟨[1, 2], .l2sq, [1, 1], [4, -2]⟩] [1, -2, 3, 1, 1] [1 / 2, 1 / 4, 1, 4, -2]
+        ≤ sepValue (K := ℝ)
+        [⟨[1, 1], .coord .l1, [1, -2], [1 / 2, 1 / 4]⟩, ⟨[1 / 2], .coord (.huber (1 / 2)), [3], [1]⟩,
+         ⟨[1, 2], .l2sq, [1, 1], [4, -2]⟩] + sepValue qs) :=
+  C08.sep_conj_sound_leaves _ (by
+    intro p hp
+    simp only [List.mem_cons, List.not_mem_nil, or_false] at hp
+    rcases hp with rfl | rfl | rfl
+    · exact ⟨by intro a ha; simp at ha; rcases ha with rfl | rfl <;> norm_num, rfl, Or.inl rfl⟩
+    · exact ⟨by intro a ha; simp at ha; subst ha; norm_num, rfl,
+        Or.inr (Or.inl ⟨1 / 2, by norm_num, rfl⟩)⟩
+    · exact ⟨by intro a ha; simp at ha; rcases ha with rfl | rfl <;> norm_num, rfl, Or.inr (Or.inr rfl)⟩)
+end sep_examples
